@@ -88,7 +88,7 @@ def main():
         for th in coq.THEOREM_RE.findall(text):
             obligations.append(("theorem:" + th, False, "not re-checked: Gen module could not be regenerated from the working tree"))
     elif not args.no_build:
-        problems = coq.lint()
+        problems = coq.lint(pid)
         obligations.append(("lint:no-admitted-no-axioms", not problems, "; ".join(problems[:5])))
         r = coq.build_props(pid, clean_cone=(args.tier == "thorough"))
         checker_cmd = r["cmd"] or checker_cmd
@@ -112,7 +112,7 @@ def main():
         elif not r["theorems"]:
             pass
         if args.tier == "thorough" and r["ok"] and not os.environ.get("VERIF_SKIP_COQCHK"):
-            ok, out = coq.coqchk(pid)
+            ok, out = coq.coqchk(pid, workdir=r.get("workdir"))
             obligations.append(("coqchk:Props.%s" % pid, ok, " ".join(out.split())[-300:]))
 
     # 3. tie 2: correspondence + direct oracle
